@@ -19,6 +19,7 @@ import random
 
 from sim import core
 from checks import c19_model as M
+from checks import c19_gen as G
 
 PROP = 'C19'
 WL = os.path.join(core.VERIF, 'workloads', 'c19_roots.py')
@@ -183,10 +184,19 @@ def opaque_call(name: str, f):
 _APPLICABLE: dict = {}
 
 
+def root_fn(root: str):
+    """A named root of workloads/c19_roots.py, or 'gen:<seed>' for a generated program."""
+    if root.startswith('gen:'):
+        return G.load(int(root[4:]))
+    return ns()[root]
+
+
 def applicable(root: str) -> list[str]:
-    """Strategies that list at least one site in the root program (static, computed once)."""
+    """Strategies that list at least one site in the root program (computed once per root)."""
     if root not in _APPLICABLE:
-        f = ns()[root]
+        f = root_fn(root)
+        if len(_APPLICABLE) > 300:
+            _APPLICABLE.clear()
         out = []
         for name in AIMABLE + RULES:
             try:
@@ -204,11 +214,16 @@ def gen_history(seed: int, tier: str) -> dict:
     roots = ns()['ROOTS']
     root = r.choice(roots)
     other = r.choice([x for x in roots if x != root])
+    if r.random() < 0.5:
+        # a generated program (a pure function of its seed); fall back when the front end rejects it
+        cand = f'gen:{r.randrange(1 << 40)}'
+        if root_fn(cand) is not None:
+            root = cand
     nops = r.randint(4, 12 if tier == 'quick' else 16)
     # swarm: a subset of strategies for this run, biased to those with sites in the root program
     app = applicable(root)
     strategies = r.sample(app, min(len(app), r.randint(1, 4))) if app else []
-    strategies += r.sample(AIMABLE, r.randint(0, 2))
+    strategies += r.sample(AIMABLE, r.randint(0, 2) if strategies else 2)
     ops = []
     for _ in range(nops):
         x = r.random()
@@ -252,8 +267,8 @@ class World:
         from fpy2.strategies import StmtCursor
         self.hist = hist
         n = ns()
-        self.nodes = [{'fn': n[hist['root']], 'parent': None, 'al': None, 'reported': True, 'via': 'root'}]
-        self.other = n[hist['other']]
+        self.nodes = [{'fn': root_fn(hist['root']), 'parent': None, 'al': None, 'reported': True, 'via': 'root'}]
+        self.other = root_fn(hist['other'])
         self.cursors = []
         self.rules = {name: new_rule(name) for name in RULES}   # reused across the ops of this history
         self.vios: list[dict] = []
@@ -263,7 +278,8 @@ class World:
     # -- helpers -----------------------------------------------------------
 
     def vio(self, cls: str, detail: dict, strategy: str | None = None, where_kind: str | None = None):
-        sig = {'cls': cls, 'root': self.hist['root'], 'strategy': strategy, 'where': where_kind}
+        sig = {'cls': cls, 'root': self.hist['root'] if not self.hist['root'].startswith('gen:') else 'gen', 'strategy': strategy,
+               'where': where_kind}
         self.vios.append({'property': PROP, 'cls': cls, 'signature': sig, 'detail': detail, 'case': self.hist})
 
     def node(self, k: int):
@@ -523,6 +539,7 @@ class World:
         wk = op['where'][0]
         self.stats.count('ops', f'apply:{wk}')
         self.stats.add('distinct', f'{name}|{wk}|k={min(k, 3)}|{self.hist["root"]}')
+        self.stats.count('roots', 'generated' if self.hist['root'].startswith('gen:') else 'corpus')
         before_fp = M.fingerprint(f.ast)
         site_targets = [site_stmt_paths(c) for c in sites]      # the statements each site names
         site_paths = [t[0] for t in site_targets]
@@ -902,7 +919,7 @@ def run(seed: int, tier: str) -> dict:
         st.count('tree_nodes', 'total', len(w.nodes))
         st.add('shapes', core.digest([[o['op'], o.get('strategy'), (o.get('where') or [None])[0]] for o in hist['ops']]))
         if i == 0 and seed % 211 == 0:
-            st.samples.append({'seed': hist['seed'], 'root': hist['root'],
+            st.samples.append({'seed': hist['seed'], 'root': hist['root'], 'root_source': G.source(int(hist['root'][4:])) if hist['root'].startswith('gen:') else None,
                                'ops': [_short(o) for o in hist['ops']], 'nodes': [n['via'] for n in w.nodes],
                                'cursors': len(w.cursors)})
         for v in vios:
@@ -988,6 +1005,7 @@ def main(tier: str) -> int:
         'forward': dict(c.get('forward', {})),
         'forward_model_classes': dict(c.get('forward_model', {})),
         'derivation_nodes': dict(c.get('nodes', {})),
+        'applies_by_root_kind': dict(c.get('roots', {})),
         'strategy_where_k_root_distinct': len(st.sets.get('distinct', ())),
         'undecided': dict(c.get('undecided', {})),
         'components': {
